@@ -582,7 +582,7 @@ fn check_word(name: &String, mixed: bool, ctx: &MixCtx, acc: &mut Acc) {
 }
 
 /// words a grammar could plausibly learn as a new operator, built-in or literal
-const PLAUSIBLE_WORDS: [&str; 191] = [
+pub const PLAUSIBLE_WORDS: [&str; 191] = [
     "not", "xor", "mod", "div", "nor", "nand", "null", "nil", "is", "as", "let", "fn", "def", "var", "len", "abs", "min", "max", "sum", "avg", "any", "all", "map", "filter", "like", "matches", "between", "exists",
     "empty", "upper", "lower", "length", "count", "first", "last", "keys", "values", "now", "today", "date", "time", "string", "str", "bool", "number", "list", "dict", "set", "type", "typeof", "case", "when", "switch",
     "match", "default", "return", "while", "for", "do", "end", "begin", "try", "catch", "throw", "new", "this", "self", "super", "where", "select", "from", "join", "on", "by", "group", "order", "limit", "having", "union",
